@@ -11,9 +11,10 @@ MODE="${1:?quick|thorough|--replay}"; shift
 KIND=""
 case "$PROP" in C18) KIND="race";; esac
 BIN="$(tools/build.sh $KIND)" || exit 2
-export GORACE="halt_on_error=0 exitcode=66"
+RACEDIR="/dev/shm/dsim-racelog-$$"; mkdir -p "$RACEDIR"; trap 'rm -rf "$RACEDIR"' EXIT
+export GORACE="halt_on_error=0 exitcode=0 log_path=$RACEDIR/race"
 ulimit -c 0
 if [ "$MODE" = "--replay" ]; then
-  exec "$BIN" replay "$@"
+  "$BIN" replay "$@"; exit $?
 fi
-exec "$BIN" check "$PROP" "$MODE" "$@"
+"$BIN" check "$PROP" "$MODE" "$@"; exit $?
